@@ -181,4 +181,20 @@ example :
       (run {} (ops ++ [.finish 2])).fired = [1, 2, 0] := by
   decide
 
+/-- fault paths at the program level: the owner's exit waits for a `ctx.spawn` member (blocked), then the owner
+is cancelled: the member is cancelled and joined, both scopes are left and complete, no assertion fails -/
+example :
+    let evs := [ScopeRun.Ev.openScope 0 true false { name := ['a'] }, .spawn 0 true,
+                .openScope 1 false false { name := ['b'] }, .exit 0 false, .cancel 0]
+    (ScopeRun.run ScopeRun.init evs).comp.fired = [1, 0] ∧ (ScopeRun.run ScopeRun.init evs).comp.err = false ∧
+      (ScopeRun.run ScopeRun.init evs).bad = false := by
+  decide
+
+/-- a disposable whose cleanup raises: the scope is still left and completes; the enclosing scope follows -/
+example :
+    let evs := [ScopeRun.Ev.openScope 0 true false { name := ['a'] }, .openScope 0 true true { name := ['b'] },
+                .exit 0 false, .exit 0 false]
+    (ScopeRun.run ScopeRun.init evs).comp.fired = [1, 0] ∧ (ScopeRun.run ScopeRun.init evs).bad = false := by
+  decide
+
 end Haiway.C09
